@@ -773,7 +773,7 @@ func (e *Exec) run(fn *ssa.Function, args []Value, bindings []Value, st *State, 
 			fr.vals[p] = args[i]
 		}
 	}
-	fr.entryState = st
+	fr.entryState = st.clone()
 	loops := findLoops(fn)
 	if len(loops) > 0 {
 		e.loopOrdinals(fn, loops)
